@@ -402,3 +402,54 @@ func VP_C02_long_lists() {
 	vp.Assert(string(w.b) == string(doc), "long list of carriers re-encodes byte for byte")
 	vp.Cover("end")
 }
+
+// strings, names and keys at and beyond what the 16-bit length prefix carries:
+// whatever the encoder accepts decodes back to the same value (a value it
+// cannot represent must be refused, not written with a wrapped length).
+func VP_C02_long_strings() {
+	n := []int{32766, 32767, 32768, 40000, 65535, 65536, 70000}[vp.Choice(7)]
+	vp.SizeBound(2*n + 64)
+	vp.Unwind(n + 64)
+	s := string(vp.Noise(n)[:n-1]) + string([]byte{vp.Byte()})
+	var w vpBuf
+	e := NewEncoder(&w)
+	var err error
+	var name string
+	var asKey bool
+	switch vp.Choice(3) {
+	case 0: // the value
+		err = e.Encode(s, "r")
+		name = "r"
+	case 1: // the root name
+		err = e.Encode(int32(7), s)
+		name = s
+	default: // a compound key
+		err = e.Encode(map[string]int8{s: 5}, "r")
+		name, asKey = "r", true
+	}
+	if err != nil {
+		vp.Cover("refused")
+		return
+	}
+	d := NewDecoder(&vpByteReader{b: w.b})
+	var gotName string
+	switch {
+	case asKey:
+		var g map[string]int8
+		gotName, err = d.Decode(&g)
+		vp.Assert(err == nil, "decoding the encoding succeeds")
+		vp.Assert(len(g) == 1 && g[s] == 5, "round trip long key")
+	case name == "r":
+		var g string
+		gotName, err = d.Decode(&g)
+		vp.Assert(err == nil, "decoding the encoding succeeds")
+		vp.Assert(g == s, "round trip long string")
+	default:
+		var g int32
+		gotName, err = d.Decode(&g)
+		vp.Assert(err == nil, "decoding the encoding succeeds")
+		vp.Assert(g == 7, "round trip value under a long name")
+	}
+	vp.Assert(gotName == name, "root name round trip")
+	vp.Cover("end")
+}
